@@ -124,9 +124,13 @@ def hmcRun (c : HmcCfg) (eps : Float) (q : List Float) (normals : List (List Flo
       -((sumFin fun j : Fin n => c.G.getD (i.val * n + j.val) 0.0 * x j) + c.b.getD i.val 0.0)
     let ms := (normals.take 10).map fun m => vecOf m.toArray n
     let bad : TT.C16.Vec Float n → Bool := fun x =>
-      match (List.finRange n).head? with
-      | some i0 => x i0 < c.lo || x i0 > c.hi
-      | none => false
+      -- `torch.isnan(U)` / `torch.isnan(dU).any()`: the stub's nan band, or a position that overflowed
+      let gx := g x
+      let u := sumFin fun i : Fin n => x i * gx i
+      let band := match (List.finRange n).head? with
+        | some i0 => x i0 < c.lo || x i0 > c.hi
+        | none => false
+      band || u.isNaN || (List.finRange n).any fun i => (x i).isNaN || (gx i).isNaN
     let qv := vecOf q.toArray n
     -- draws consumed: the failed trials and the first one that does not raise
     let failed := (ms.takeWhile fun m => TT.C16.trialRaises bad g (eps / 2.0) eps im c.steps qv m).length
